@@ -132,17 +132,25 @@ func waitFor(oc *outputCollector, prefix string, atLeast int, d time.Duration) b
 	return oc.count(prefix) >= atLeast
 }
 
+// an optional earlier phase at which the search thread is merely delayed (no command is issued there): lets the time-dependent
+// behaviour of the search (the 200 ms threshold of the mid-iteration PV lines) take effect before the phase under test
+var schedPreHold *phase
+var schedPreHoldMs = 260
+
 func runSchedule(fen, goCmd string, at phase, cmds []string, holdMs int) schedResult {
 	res := schedResult{fen: fen, goCmd: goCmd, at: at.String(), cmds: cmds, holdMs: holdMs}
 	engine.VerifResetSession()
 	oc := startCollect()
 	reached := make(chan struct{}, 1)
 	release := make(chan struct{})
-	var once sync.Once
+	var once, preOnce sync.Once
 	exited := make(chan struct{}, 8)
 	engine.VerifSyncHook = func(point, a, b int) {
 		if point == engine.VsAfterBestmove {
 			exited <- struct{}{}
+		}
+		if ph := schedPreHold; ph != nil && point == ph.point && a == ph.a {
+			preOnce.Do(func() { time.Sleep(time.Duration(schedPreHoldMs) * time.Millisecond) })
 		}
 		match := false
 		if at.point == engine.VsInnerMoveDone {
@@ -425,6 +433,16 @@ func init() {
 					printSched(runSchedule(fen, "go movetime 120", phase{engine.VsInnerMoveDone, d, nrootOf(fen) - 1}, nil, 130))
 					printSched(runSchedule(fen, "go movetime 120", phase{engine.VsRootMoveDone, d, nrootOf(fen) - 1}, nil, 130))
 					count += 3
+					if d == 3 && mode == "c11" {
+						// stop in iteration 3 after the search has been running for more than 200 ms (mid-iteration PV lines are
+						// printed from then on): the move played is still the one of iteration 2
+						schedPreHold = &phase{engine.VsIterationDone, 2, 0}
+						for _, k := range []int{nrootOf(fen) / 3, nrootOf(fen) / 2, nrootOf(fen) - 1} {
+							printSched(runSchedule(fen, "go infinite", phase{engine.VsRootMoveDone, 3, k}, []string{"stop"}, 0))
+							count++
+						}
+						schedPreHold = nil
+					}
 					// depth limit and time limit together: the deadline expires inside the LAST permitted iteration
 					both := fmt.Sprintf("go depth %d movetime 120", d)
 					printSched(runSchedule(fen, both, phase{engine.VsRootMoveDone, d, 1}, nil, 130))
@@ -562,7 +580,12 @@ func init() {
 				case 7:
 					script = append(script, fmt.Sprintf("go movetime %d", []int{1, 2, 5, 15}[r.intn(4)]))
 				case 8:
-					script = append(script, fmt.Sprintf("go infinite @%d,%d", 1+r.intn(3), r.intn(3)))
+					if r.chance(1, 3) {
+						// a stop that arrives when the search has just decided to end by itself (held before its bestmove)
+						script = append(script, fmt.Sprintf("go depth %d ^", 1+r.intn(2)))
+					} else {
+						script = append(script, fmt.Sprintf("go infinite @%d,%d", 1+r.intn(3), r.intn(3)))
+					}
 				default:
 					// stop noticed inside the tree: iteration d in 2..4, at a node of depth 1..d-1
 					d := 2 + r.intn(3)
@@ -575,7 +598,27 @@ func init() {
 				if strings.HasPrefix(c, "go") {
 					expectedBest++
 				}
-				if strings.HasPrefix(c, "go infinite @") || strings.HasPrefix(c, "go infinite #") {
+				if strings.HasSuffix(c, " ^") {
+					holdAt = phase{engine.VsBeforeBestmove, 0, 0}
+					holdOnce = &sync.Once{}
+					release = make(chan struct{})
+					engine.ParseInputLine(strings.TrimSuffix(c, " ^"))
+					select {
+					case <-reached:
+						engine.ParseInputLine("stop")
+						close(release)
+					case <-time.After(5 * time.Second):
+						holdOnce.Do(func() {})
+						close(release)
+					}
+					select {
+					case <-exited:
+					case <-time.After(10 * time.Second):
+						problem = "search did not end"
+					}
+					holdOnce = nil
+					waitFor(oc, "bestmove", expectedBest, 10*time.Second)
+				} else if strings.HasPrefix(c, "go infinite @") || strings.HasPrefix(c, "go infinite #") {
 					var d, k int
 					if strings.HasPrefix(c, "go infinite @") {
 						fmt.Sscanf(c, "go infinite @%d,%d", &d, &k)
